@@ -277,8 +277,11 @@ def judge_surface(op_line, out_line):
         elif op == "cfsamplers":
             if d["status"] not in ("EXACT_SOLUTION", "APPROXIMATE_SOLUTION", "TIMEOUT"):
                 return "CForest status %s" % d["status"]
-            if int(d["held"]) != int(a[1]) - 1:
-                return "only %s of %d instances were held in their sampler allocation: scenario did not run" % (d["held"], int(a[1]) - 1)
+            if d.get("monitor") == "1" and (d["polls_nonzero"] != "1" or d["cost_went_up"] != "0" or d["count_went_down"] != "0"):
+                return ("progress properties polled during solve: best cost went up %s times, a shared counter went down %s times "
+                        "(polled at all: %s)" % (d["cost_went_up"], d["count_went_down"], d["polls_nonzero"]))
+            if d["held"] != "1":
+                return "the last instance was not held in its sampler allocation (held=%s): scenario did not run" % d["held"]
         elif op == "logging":
             if d["received"] != d["sent"]:
                 return "%s messages sent, handlers received %s" % (d["sent"], d["received"])
@@ -579,7 +582,7 @@ def surface_ops(rng, tier, tsan):
         ops += ["solmix %d %d %d %d %d" % (T(2, 6), rng.range(1, 2), rng.range(1, 2), 60, rng.below(1000))]
         ops += ["solrace %d 2" % rng.range(2, 8)]
         ops += ["cfrace %d %d" % (2 * rng.range(1, 3), 300)]
-        ops += ["cfsamplers %d %d %d" % (rng.range(2, 3), 20000, rng.below(2))]
+        ops += ["cfsamplers %d %d %d %d" % (rng.range(2, 3), 20000, rng.below(2), 1 if tsan else rng.below(2))]
         ops += ["logging %d %d" % (T(2, 8), 200)]
         ops += ["terminate %d 0" % T(2, 8), "terminate %d 1" % T(2, 6), "terminate %d 2" % T(2, 6)]
     else:
@@ -597,7 +600,7 @@ def surface_ops(rng, tier, tsan):
             ops += ["solmix %d %d %d %d %d" % (T(2, 10), rng.range(1, 3), rng.range(1, 3), 300, rng.below(1000))]
             ops += ["solrace %d %d" % (rng.range(1, 12), 3)]
             ops += ["cfrace %d %d" % (2 * rng.range(1, 4), rng.choice([200, 2000]))]
-            ops += ["cfsamplers %d %d %d" % (rng.range(2, 4), 30000, rng.below(2))]
+            ops += ["cfsamplers %d %d %d %d" % (rng.range(2, 4), 30000, rng.below(2), rng.below(2))]
             ops += ["logging %d %d" % (T(), 1500)]
             ops += ["terminate %d 0" % T(), "terminate %d 1" % T(2, 8), "terminate %d 2" % T(2, 8)]
     return ops
